@@ -452,7 +452,10 @@ func C07(c *core.Ctx) {
 	for k := 0; k <= len(ex); k += step {
 		texts = append(texts, string(ex[:k]))
 	}
-	texts = append(texts, "", "\n", "\xff", "#é", "#é\n", "//€ x\n2020-01-01 open Assets:A\n", "#é\nx\n2023-01-01 open Assets:A\n",
+	for k := 0; k < 40; k++ { // a byte order mark in front (of a journal, of garbage, of nothing)
+		texts = append(texts, "\ufeff"+texts[rng.Intn(len(texts))])
+	}
+	texts = append(texts, "\ufeff", "\ufeff\n", "a\ufeffb", "", "\n", "\xff", "#é", "#é\n", "//€ x\n2020-01-01 open Assets:A\n", "#é\nx\n2023-01-01 open Assets:A\n",
 		"2020-01-01 open Assets:"+strings.Repeat("Ab", 60000)+"\n", strings.Repeat("# c\n", 20000), "2020-01-01 \""+strings.Repeat("é", 100000)+"\"\nAssets:A Assets:B 1 CHF\n")
 	seen := map[string]bool{}
 	var cases []map[string]any
